@@ -117,7 +117,12 @@ func (c *uvCtx) score() {
 					continue // one-sided derivative at a kink: not judged
 				}
 				sc := c.sp.scoreScale(c.p, j)
-				h := 1e-3 * sc
+				h := 1e-4 * sc
+				// differences of x - theta lose eps*max(|x|,|theta|): skip when that dominates
+				if mx := math.Max(math.Abs(x), math.Abs(c.p[j])); mx*0x1p-52 > 1e-9*math.Min(h, math.Max(dist, 1e-300)) && c.paramMovesKink(j) {
+					c.t.Count("score_points_roundoff_dominated", 1)
+					continue
+				}
 				if c.paramMovesKink(j) {
 					if dist < 1e-7*sc {
 						c.t.Count("score_points_too_close_to_a_kink", 1)
@@ -178,7 +183,11 @@ func (c *uvCtx) score() {
 				c.t.Count("score_points_too_close_to_a_kink", 1)
 				continue
 			}
-			h := math.Min(1e-3*span, 0.02*dist)
+			h := math.Min(1e-4*span, 0.02*dist)
+			if math.Abs(x)*0x1p-52 > 1e-9*h {
+				c.t.Count("score_points_roundoff_dominated", 1)
+				continue
+			}
 			f := func(e float64) float64 { c.evals++; return c.d.(hasLogProb).LogProb(x + e) }
 			num := richardson(f, h)
 			if !closeRA(an, num, tolScoreRel, tolScoreAbs/span) {
